@@ -197,7 +197,10 @@ fn run_window(ctx: &Ctx, pl: Placement, max_list: usize, tag: &str) {
                 if got != want {
                     ctx.violation(
                         "C31:membership",
-                        format!("is_in({ip}) = {got}, definition says {want} for [{}]", fmt_subnets(&subnets)),
+                        format!(
+                            "is_in({ip}) = {got}, definition says {want} for [{}]",
+                            fmt_subnets(&subnets)
+                        ),
                         format!("{tag};{};{ip}", fmt_subnets(&subnets)),
                     );
                 }
@@ -213,7 +216,10 @@ fn run_window(ctx: &Ctx, pl: Placement, max_list: usize, tag: &str) {
                     if gotm != want {
                         ctx.violation(
                             "C31:membership-mapped",
-                            format!("is_in({mapped}) = {gotm}, definition says {want} for [{}]", fmt_subnets(&subnets)),
+                            format!(
+                                "is_in({mapped}) = {gotm}, definition says {want} for [{}]",
+                                fmt_subnets(&subnets)
+                            ),
                             format!("{tag};{};{mapped}", fmt_subnets(&subnets)),
                         );
                     }
@@ -228,7 +234,10 @@ fn run_window(ctx: &Ctx, pl: Placement, max_list: usize, tag: &str) {
             if got != want {
                 ctx.violation(
                     "C31:membership",
-                    format!("is_in({ip}) = {got}, definition says {want} for [{}]", fmt_subnets(&subnets)),
+                    format!(
+                        "is_in({ip}) = {got}, definition says {want} for [{}]",
+                        fmt_subnets(&subnets)
+                    ),
                     format!("{tag};{};{ip}", fmt_subnets(&subnets)),
                 );
             }
@@ -244,7 +253,12 @@ fn run_window(ctx: &Ctx, pl: Placement, max_list: usize, tag: &str) {
             ctx.add("lists_reversed_order", 1);
         }
         if li % 40_009 == 7 && !reversed {
-            ctx.sample(format!("{tag}: subnets [{}] -> {} of {} window addresses listed", fmt_subnets(&subnets), matched, 2 * naddr));
+            ctx.sample(format!(
+                "{tag}: subnets [{}] -> {} of {} window addresses listed",
+                fmt_subnets(&subnets),
+                matched,
+                2 * naddr
+            ));
         }
     });
 }
@@ -292,20 +306,58 @@ fn in_ref_general(subnets: &[IpSubnet], ip: IpAddr) -> bool {
 
 fn run_from_str(ctx: &Ctx) {
     let addr_texts = [
-        "0.0.0.0", "192.168.1.7", "255.255.255.255", "10.0.0.0", "::", "::1", "2001:db8::1",
-        "ffff:ffff:ffff:ffff:ffff:ffff:ffff:ffff", "::ffff:1.2.3.4", "::ffff:0.0.0.0",
-        "::ffff:255.255.255.255", "::fffe:1.2.3.4", "::1.2.3.4", "1.2.3", "", "1.2.3.4.5", "g::",
-        "1.2.3.4 ", " 1.2.3.4", "01.2.3.4", "1:2:3:4:5:6:7:8:9", "[::1]",
+        "0.0.0.0",
+        "192.168.1.7",
+        "255.255.255.255",
+        "10.0.0.0",
+        "::",
+        "::1",
+        "2001:db8::1",
+        "ffff:ffff:ffff:ffff:ffff:ffff:ffff:ffff",
+        "::ffff:1.2.3.4",
+        "::ffff:0.0.0.0",
+        "::ffff:255.255.255.255",
+        "::fffe:1.2.3.4",
+        "::1.2.3.4",
+        "1.2.3",
+        "",
+        "1.2.3.4.5",
+        "g::",
+        "1.2.3.4 ",
+        " 1.2.3.4",
+        "01.2.3.4",
+        "1:2:3:4:5:6:7:8:9",
+        "[::1]",
     ];
     let mut mask_texts: Vec<String> = (0..=255u32).map(|m| m.to_string()).collect();
     for bad in ["", "x", "-1", "256", "1.5", "1000", " 8", "8 ", "/8"] {
         mask_texts.push(bad.to_string());
     }
     let probes: Vec<IpAddr> = [
-        "0.0.0.0", "1.2.3.4", "1.2.3.5", "1.2.4.4", "192.168.1.7", "192.168.1.255", "192.168.2.0",
-        "255.255.255.255", "10.0.0.1", "128.0.0.0", "::", "::1", "::2", "2001:db8::1", "2001:db8::2",
-        "2001:db9::1", "ffff:ffff:ffff:ffff:ffff:ffff:ffff:ffff", "8000::", "::ffff:1.2.3.4",
-        "::ffff:1.2.3.5", "::ffff:192.168.1.7", "::fffe:1.2.3.4", "::1.2.3.4", "::1.2.3.5",
+        "0.0.0.0",
+        "1.2.3.4",
+        "1.2.3.5",
+        "1.2.4.4",
+        "192.168.1.7",
+        "192.168.1.255",
+        "192.168.2.0",
+        "255.255.255.255",
+        "10.0.0.1",
+        "128.0.0.0",
+        "::",
+        "::1",
+        "::2",
+        "2001:db8::1",
+        "2001:db8::2",
+        "2001:db9::1",
+        "ffff:ffff:ffff:ffff:ffff:ffff:ffff:ffff",
+        "8000::",
+        "::ffff:1.2.3.4",
+        "::ffff:1.2.3.5",
+        "::ffff:192.168.1.7",
+        "::fffe:1.2.3.4",
+        "::1.2.3.4",
+        "::1.2.3.5",
     ]
     .iter()
     .map(|s| s.parse().unwrap())
@@ -316,7 +368,11 @@ fn run_from_str(ctx: &Ctx) {
             let got = match common::catch(|| IpSubnet::from_str(&text)) {
                 Ok(g) => g,
                 Err(e) => {
-                    ctx.violation("C31:parse-panic", format!("from_str({text:?}) panicked: {e}"), format!("parse;{text}"));
+                    ctx.violation(
+                        "C31:parse-panic",
+                        format!("from_str({text:?}) panicked: {e}"),
+                        format!("parse;{text}"),
+                    );
                     continue;
                 }
             };
@@ -332,10 +388,29 @@ fn run_from_str(ctx: &Ctx) {
             let expect: Option<IpSubnet> = match (addr, mask) {
                 (Some(a), Some(m)) => match (a, a.to_canonical()) {
                     (IpAddr::V6(_), c @ IpAddr::V4(_)) => {
-                        if m >= 96 && m - 96 <= 32 { Some(IpSubnet { addr: c, mask: m - 96 }) } else { None }
+                        if m >= 96 && m - 96 <= 32 {
+                            Some(IpSubnet {
+                                addr: c,
+                                mask: m - 96,
+                            })
+                        } else {
+                            None
+                        }
                     }
-                    (IpAddr::V4(_), _) => if m <= 32 { Some(IpSubnet { addr: a, mask: m }) } else { None },
-                    (IpAddr::V6(_), _) => if m <= 128 { Some(IpSubnet { addr: a, mask: m }) } else { None },
+                    (IpAddr::V4(_), _) => {
+                        if m <= 32 {
+                            Some(IpSubnet { addr: a, mask: m })
+                        } else {
+                            None
+                        }
+                    }
+                    (IpAddr::V6(_), _) => {
+                        if m <= 128 {
+                            Some(IpSubnet { addr: a, mask: m })
+                        } else {
+                            None
+                        }
+                    }
                 },
                 _ => None,
             };
@@ -350,7 +425,9 @@ fn run_from_str(ctx: &Ctx) {
                         if want != have {
                             ctx.violation(
                                 "C31:parsed-subnet-membership",
-                                format!("subnet {text:?}: is_in({p}) = {have}, definition says {want}"),
+                                format!(
+                                    "subnet {text:?}: is_in({p}) = {have}, definition says {want}"
+                                ),
                                 format!("parse;{text};{p}"),
                             );
                         }
@@ -364,7 +441,10 @@ fn run_from_str(ctx: &Ctx) {
                 }
                 (Ok(g), None) => ctx.violation(
                     "C31:parse-accepts",
-                    format!("from_str({text:?}) accepted as {}/{} but the statement rejects it", g.addr, g.mask),
+                    format!(
+                        "from_str({text:?}) accepted as {}/{} but the statement rejects it",
+                        g.addr, g.mask
+                    ),
                     format!("parse;{text}"),
                 ),
                 (Err(e), Some(_)) => ctx.violation(
@@ -386,11 +466,18 @@ fn replay(ctx: &Ctx, trace: &str) -> String {
         return format!("{r:?}");
     }
     let subnets = parse_subnets(parts[1]).unwrap_or_default();
-    let ip: IpAddr = parts.get(2).and_then(|s| s.parse().ok()).unwrap_or(IpAddr::V4(Ipv4Addr::UNSPECIFIED));
+    let ip: IpAddr = parts
+        .get(2)
+        .and_then(|s| s.parse().ok())
+        .unwrap_or(IpAddr::V4(Ipv4Addr::UNSPECIFIED));
     let got = common::catch(|| IpFilter::new(&subnets).is_in(ip));
     let want = in_ref_general(&subnets, ip);
     if got != Ok(want) {
-        ctx.violation("C31:membership", format!("is_in({ip}) = {got:?}, definition {want}"), trace);
+        ctx.violation(
+            "C31:membership",
+            format!("is_in({ip}) = {got:?}, definition {want}"),
+            trace,
+        );
     }
     format!("got={got:?} want={want}")
 }
@@ -413,23 +500,69 @@ fn check() {
     );
     ctx.assume("IPv4-mapped IPv6 client addresses and subnet strings are canonicalised to IPv4 first; IPv6 subnets never match canonicalised IPv4 clients (family-separated reading of the statement)");
     ctx.assume("std's IpAddr::from_str decides whether an address text parses");
-    let v4_offsets: &[u8] = if ctx.quick() { &[0, 13, 24] } else { &[0, 1, 4, 7, 13, 16, 21, 24] };
-    let v6_offsets: &[u8] = if ctx.quick() { &[4, 61] } else { &[0, 4, 30, 61, 64, 93, 117, 120] };
+    let v4_offsets: &[u8] = if ctx.quick() {
+        &[0, 13, 24]
+    } else {
+        &[0, 1, 4, 7, 13, 16, 21, 24]
+    };
+    let v6_offsets: &[u8] = if ctx.quick() {
+        &[4, 61]
+    } else {
+        &[0, 4, 30, 61, 64, 93, 117, 120]
+    };
     let base4: u128 = (0xC0A8_0107u128) << 96; // 192.168.1.7
     let base6: u128 = 0x2001_0db8_85a3_0000_1234_8a2e_0370_7334u128;
     for &off in v4_offsets {
-        let base = if off == 0 { 0 } else { base4 & (u128::MAX << (128 - off as u32)) };
-        run_window(&ctx, Placement { v6: false, offset: off, win: 8, base }, 2, &format!("a.v4@{off}"));
+        let base = if off == 0 {
+            0
+        } else {
+            base4 & (u128::MAX << (128 - off as u32))
+        };
+        run_window(
+            &ctx,
+            Placement {
+                v6: false,
+                offset: off,
+                win: 8,
+                base,
+            },
+            2,
+            &format!("a.v4@{off}"),
+        );
     }
     for &off in v6_offsets {
-        let base = if off == 0 { 0 } else { base6 & (u128::MAX << (128 - off as u32)) };
-        run_window(&ctx, Placement { v6: true, offset: off, win: 8, base }, 2, &format!("a.v6@{off}"));
+        let base = if off == 0 {
+            0
+        } else {
+            base6 & (u128::MAX << (128 - off as u32))
+        };
+        run_window(
+            &ctx,
+            Placement {
+                v6: true,
+                offset: off,
+                win: 8,
+                base,
+            },
+            2,
+            &format!("a.v6@{off}"),
+        );
     }
     let k = if ctx.quick() { 3 } else { 4 };
     for (v6, off) in [(false, 2u8), (false, 27), (true, 3), (true, 123)] {
         let b = if v6 { base6 } else { base4 };
         let base = b & (u128::MAX << (128 - off as u32));
-        run_window(&ctx, Placement { v6, offset: off, win: 5, base }, k, &format!("b.{}@{off}", if v6 { "v6" } else { "v4" }));
+        run_window(
+            &ctx,
+            Placement {
+                v6,
+                offset: off,
+                win: 5,
+                base,
+            },
+            k,
+            &format!("b.{}@{off}", if v6 { "v6" } else { "v4" }),
+        );
     }
     run_from_str(&ctx);
     ctx.exhaustive(true);
